@@ -58,16 +58,8 @@ def oracle(req, impl, build):
                     return "next_f32 outside [1,2)"
                 if d["ty"] == "f64" and not (0x3FF0000000000000 <= v < 0x4000000000000000):
                     return "next_f64 outside [1,2)"
-    if req.startswith("word") and " state=" in req:
-        # the raw word of xoshiro256+ is s0 + s3; the unit float is that word's top bits under the exponent of 1.0 (computed here, independently)
-        d = O.kv(req)
-        st = [int(x) for x in d["state"].split(",")]
-        word = (st[0] + st[3]) % (1 << 64)
-        op = d["ops"].split(",")[0]
-        want = (127 << 23 | word >> 41) if op == "f32" else (1023 << 52 | word >> 12)
-        tok = impl.split()[0]
-        if tok.startswith("f:") and int(tok[2:]) != want:
-            return "next_%s on the raw word %#x returned bits %#x, not %#x (the value whose mantissa is the word's top bits)" % (op, word, int(tok[2:]), want)
+    # (which bits of the raw word become the mantissa is not fixed by this property - C01 fixes it for the published generators; the
+    #  weights are judged by the preimage counts and the twin runs in `extra`)
     if req.startswith("word"):
         for tok in impl.split():
             if tok.startswith("f:"):
@@ -85,19 +77,51 @@ def extra(binary, build, tier, rng):
     calls = 0
     for w, via in ((64, "sample"), (64, "float01"), (32, "sample")):
         mb, bias = (52, 1023) if w == 64 else (23, 127)
-        for m2 in (0, B - 1, rng.u64()):
-            mk = lambda x, m2=m2: "f01 w=%d via=%s n=1 words=%d,%d" % (w, via, x, m2)
-            def parse(res, mb=mb, bias=bias):
-                f = parse_ok(res)
-                if f is None:
-                    return None
-                v = int(f[0])
-                return bias - 1 - (v >> mb)          # k: the value lies in [2^-(k+1), 2^-k)
-            p = Prober(binary, mk, parse)
-            runs = steps(p, 0, B - 1)
+        L2 = 64 if w == 64 else 32                     # width of the second draw (next_f32 consumes a 32-bit word)
+        def fields(res, mb=mb, bias=bias):
+            f = parse_ok(res)
+            if f is None:
+                return None
+            v = int(f[0])
+            return (bias - 1 - (v >> mb), v & ((1 << mb) - 1))     # (k: the value lies in [2^-(k+1), 2^-k), mantissa field)
+        # which of the two words decides the binade, which the mantissa?  (today: first word -> binade, second -> mantissa; a rewrite may
+        # do it the other way round: the property only fixes the weights).  Found by varying one word at a time.
+        base = (0x0123456789ABCDEF, 0x0FEDCBA987654321 & ((1 << L2) - 1))
+        pr = Prober(binary, lambda pair: "f01 w=%d via=%s n=1 words=%d,%d" % (w, via, pair[0], pair[1]), fields)
+        v1 = {pr.one((x, base[1])) for x in (1, 1 << 20, 1 << 40, 1 << 62, B - 1, base[0])}
+        v2 = {pr.one((base[0], x)) for x in (1, 1 << 10, 1 << 20, (1 << L2) - 1, 1 << (L2 - 2), base[1])}
+        calls += pr.calls
+        if None in v1 or None in v2:
+            yield {"kind": "note", "text": "Float01 w=%d via=%s: two words do not suffice for a sample - weight counts inconclusive" % (w, via)}
+            continue
+        bin_by_1, man_by_1 = len({a for a, _ in v1}) > 1, len({b for _, b in v1}) > 1
+        bin_by_2, man_by_2 = len({a for a, _ in v2}) > 1, len({b for _, b in v2}) > 1
+        if bin_by_1 and not bin_by_2 and man_by_2 and not man_by_1:
+            order = (0, 1)
+        elif bin_by_2 and not bin_by_1 and man_by_1 and not man_by_2:
+            order = (1, 0)
+        else:
+            yield {"kind": "note", "text": "Float01 w=%d via=%s: binade and mantissa are not each decided by one word - weight counts inconclusive" % (w, via)}
+            continue
+        bw, mw = order                                  # index of the word deciding the binade / the mantissa
+        # how many bits of each scripted 64-bit word are consumed (a 32-bit draw takes the low half): does the upper half matter?
+        def wide(pos):
+            outs = set()
+            for hi_bits in (0, 1 << 40, 1 << 63, 0xFFFFFFFF00000000):
+                ws = [0x1234, 0x5678]
+                ws[pos] = (ws[pos] & 0xFFFFFFFF) | hi_bits
+                outs.add(pr.one((ws[0], ws[1])))
+            return 64 if len(outs) > 1 else 32
+        Lb, Lm = wide(bw), wide(mw)
+        def pair(bword, mword, bw=bw):
+            return (bword, mword) if bw == 0 else (mword, bword)
+        for m2 in (0, (1 << Lm) - 1, rng.bits(Lm)):
+            mk = lambda x, m2=m2: "f01 w=%d via=%s n=1 words=%d,%d" % ((w, via) + pair(x, m2))
+            p = Prober(binary, mk, lambda res: (fields(res) or (None,))[0])
+            runs = steps(p, 0, (1 << Lb) - 1)
             calls += p.calls
             if runs is None:
-                yield {"kind": "oracle", "build": build, "request": mk(0), "impl": "", "model": "", "oracle": "Float01: the binade is not a step function of the first word (more than 200 runs)"}
+                yield {"kind": "note", "text": "Float01 w=%d via=%s: the binade is not a small step function of the word that decides it - binade count inconclusive" % (w, via)}
                 continue
             bad = validate_steps(p, runs, rng)
             if bad:
@@ -106,33 +130,31 @@ def extra(binary, build, tier, rng):
             cnt = {}
             for first, last, k in runs:
                 cnt[k] = cnt.get(k, 0) + last - first + 1
-            for k in range(64):
-                if cnt.get(k, 0) != 1 << (63 - k):
+            if Lb < 64:
+                yield {"kind": "note", "text": "Float01 w=%d via=%s: the binade is decided by a %d-bit word: binades k >= %d cannot have weight 2^-(k+1) - judged below" % (w, via, Lb, Lb)}
+            for k in range(min(64, Lb)):
+                if cnt.get(k, 0) != 1 << (Lb - 1 - k):
                     wit = next((first for first, last, kk in runs if kk == k), 0)
                     extra_words = [(first, last) for first, last, kk in runs if kk == k]
-                    yield {"kind": "oracle", "build": build, "request": mk(wit), "impl": "binade %d <- first words %s" % (k, extra_words[:4]), "model": "",
-                           "oracle": "Float01 (w=%d via=%s): binade [2^-%d, 2^-%d) receives %d of the 2^64 first words, not 2^%d = %d" % (w, via, k + 1, k, cnt.get(k, 0), 63 - k, 1 << (63 - k))}
+                    yield {"kind": "oracle", "build": build, "request": mk(wit), "impl": "binade %d <- deciding words %s" % (k, extra_words[:4]), "model": "",
+                           "oracle": "Float01 (w=%d via=%s): binade [2^-%d, 2^-%d) receives %d of the 2^%d words that decide the binade, not 2^%d = %d" % (w, via, k + 1, k, cnt.get(k, 0), Lb, Lb - 1 - k, 1 << (Lb - 1 - k))}
                     break
-        # mantissa: a fixed first word, the mantissa field as a function of the second word
-        for w1 in (0, 1 << 63, rng.u64()):
-            mk = lambda x, w1=w1: "f01 w=%d via=%s n=1 words=%d,%d" % (w, via, w1, x)
-            def parse(res, mb=mb):
-                f = parse_ok(res)
-                return None if f is None else int(f[0]) & ((1 << mb) - 1)
-            p = Prober(binary, mk, parse)
+        # mantissa: a fixed binade word, the mantissa field as a function of the other word
+        for w1 in (0, 1 << (Lb - 1), rng.bits(Lb)):
+            mk = lambda x, w1=w1: "f01 w=%d via=%s n=1 words=%d,%d" % ((w, via) + pair(w1, x))
+            p = Prober(binary, mk, lambda res: (fields(res) or (None, None))[1])
             r = 1 << mb
             vals = [0, 1, 2, r // 2 - 1, r // 2, r - 2, r - 1] + [rng.below(r) for _ in range(4)]
-            L = 64 if w == 64 else 32        # next_f32 consumes a 32-bit word (the scripted source hands out the low half of its word)
-            msg, info = count_values(p, r, L, vals, rng, "Float01 mantissa (w=%d)" % w)
+            msg, info = count_values(p, r, Lm, vals, rng, "Float01 mantissa (w=%d)" % w)
             calls += p.calls
             if msg == "inconclusive":
                 yield {"kind": "note", "text": "Float01 w=%d mantissa preimage count inconclusive: %s" % (w, info)}
             elif msg:
                 yield {"kind": "oracle", "build": build, "request": mk(info[min(info)][0]), "impl": str(info)[:400], "model": "", "oracle": msg}
-            elif any(n != (1 << L) // r for (_, _, n) in info.values()):
-                c = next(c for c, (_, _, n) in info.items() if n != (1 << L) // r)
+            elif any(n != (1 << Lm) // r for (_, _, n) in info.values()):
+                c = next(c for c, (_, _, n) in info.items() if n != (1 << Lm) // r)
                 yield {"kind": "oracle", "build": build, "request": mk(info[c][0]), "impl": str(info[c]), "model": "",
-                       "oracle": "Float01 (w=%d): mantissa value %d is produced by %d second words, not 2^%d (not a full-width mantissa)" % (w, c, info[c][2], L - mb)}
+                       "oracle": "Float01 (w=%d): mantissa value %d is produced by %d words, not 2^%d (not a full-width mantissa)" % (w, c, info[c][2], Lm - mb)}
     # twin runs: the unit float a generator returns must be the top bits of the raw word it would have returned at the same point of the
     # same history - for ChaCha at every buffer offset (the prefix contains byte fills), for SplitMix64 and Wyrand (Xoshiro256 derives
     # its floats from xoshiro256+, not from next_u64: covered by the injected-state requests)
@@ -156,15 +178,44 @@ def extra(binary, build, tier, rng):
                 head = "chacha n=%d key=1,2,3,4,5,6,7,8 ctr=7 str=1 ops=" % N
                 twins.append((head + "fill:%d,%s" % (off, op), head + "fill:%d,%s" % (off, raw), op, 1))
     rc, res, err = C.run_lines(binary, ["run"], [q for t in twins for q in t[:2]])
+    # what the same raw word gives through the generic path (a scripted source behind the standard distribution): the reference mapping of
+    # THIS implementation, whatever bits it uses
+    raws = []
     for k, (qf, qr, op, npre) in enumerate(twins):
         tf, tr = res[2 * k].split(), res[2 * k + 1].split()
-        if len(tf) <= npre or len(tr) <= npre or not tf[npre].startswith("f:") or not tr[npre].isdigit():
+        ok = len(tf) > npre and len(tr) > npre and tf[npre].startswith("f:") and tr[npre].isdigit()
+        raws.append((int(tf[npre][2:]), int(tr[npre])) if ok else None)
+    gen_reqs = ["std ty=%s n=1 profile=%s words=%d" % (t[2], "release" if build == "release" else "debug", r[1]) for t, r in zip(twins, raws) if r]
+    rc, gres, err = C.run_lines(binary, ["run"], gen_reqs)
+    git = iter(gres)
+    suspects = []
+    for k, ((qf, qr, op, npre), r) in enumerate(zip(twins, raws)):
+        if not r:
             continue
-        got, word = int(tf[npre][2:]), int(tr[npre])
-        want = (1023 << 52 | word >> 12) if op == "f64" else (127 << 23 | word >> 9)
+        f = parse_ok(next(git))
+        if f is None:
+            continue
+        got, word, want = r[0], r[1], int(f[0])
         if got != want:
-            yield {"kind": "oracle", "build": build, "request": qf, "requests": [qf, qr], "impl": res[2 * k][:200], "model": res[2 * k + 1][:200],
-                   "oracle": "next_%s returned bits %#x where the generator's raw word at this point is %#x: not the value of [1,2) whose mantissa is the word's top bits (%#x)" % (op, got, word, want)}
+            suspects.append((qf, qr, op, npre, got, word, want, res[2 * k], res[2 * k + 1]))
+    # a float that differs from the generic mapping of the same raw word is only a failing input if the values really are not equally
+    # weighted: confirmed on 64 variants of the history (other keys / seeds): some mantissa bit never varies
+    import re
+    for qf, qr, op, npre, got, word, want, rf, rr in suspects[:3]:
+        var = []
+        for i in range(64):
+            if qf.startswith("chacha"):
+                var.append(re.sub(r"key=[\d,]+", "key=%s" % ",".join(str(rng.bits(32)) for _ in range(8)), qf))
+            else:
+                var.append(re.sub(r"seed=\d+", "seed=%d" % rng.u64(), qf))
+        rc, vres, err = C.run_lines(binary, ["run"], var)
+        mans = [int(t.split()[npre][2:]) & ((1 << (52 if op == "f64" else 23)) - 1) for t in vres if len(t.split()) > npre and t.split()[npre].startswith("f:")]
+        stuck = [b for b in range(52 if op == "f64" else 23) if len({(m >> b) & 1 for m in mans}) == 1] if len(mans) >= 48 else []
+        if stuck:
+            yield {"kind": "oracle", "build": build, "request": qf, "requests": [qf, qr], "impl": rf[:200], "model": rr[:200],
+                   "oracle": "next_%s returned bits %#x where the generator's raw word at this point is %#x (the generic path maps that word to %#x), and over %d variants of this history mantissa bit(s) %s never change: the values of [1,2) are not hit by equally many words" % (op, got, word, want, len(mans), stuck[:6])}
+        else:
+            yield {"kind": "note", "text": "%s: next_%s differs from the generic mapping of the same raw word, no stuck mantissa bit over 64 variants - not judged" % (qf[:120], op)}
     yield {"kind": "count", "what": "float-vs-raw-word-twins", "n": len(twins), "distinct": len(twins)}
     # next_f64 / next_f32 (standard distribution over a scripted word source): probed values of [1,2) are hit by equally many words
     prof = "release" if build == "release" else "debug"
